@@ -207,7 +207,7 @@ pub fn run(r: &mut Report, _replay: Option<&str>) {
     }
     r.exhaustive = false;
     // random, mostly acyclic
-    let n_random = if r.thorough() { 12000 } else { 2000 } / nshards;
+    let n_random = if r.thorough() { 12000 } else { 6000 } / nshards;
     for _ in 0..n_random {
         let acyclic = !rng.chance(1, 6);
         let m = gen::gen_criteria(&mut rng, 5, acyclic);
@@ -292,7 +292,7 @@ fn verdict(md: &Metadata, store: &Store) -> String {
 }
 
 fn metamorphic(r: &mut Report, rng: &mut Rng, nshards: u64) {
-    let n = if r.thorough() { 20000 } else { 3000 } / nshards;
+    let n = if r.thorough() { 20000 } else { 9000 } / nshards;
     let cfg = gen::WorldCfg { violations: 2, ..Default::default() };
     for _ in 0..n {
         let w = gen::gen_world(rng, &cfg);
